@@ -30,6 +30,11 @@ PID = 'C06'
 _P = 'NoteSeqVerif.Props.C06'
 MODULES = [_P]
 EXE = 'drv_c06'
+# translator tie T2 (gen/translit2.py): seconds-per-step and start-time expressions of all eight to_sequence methods
+BRIDGE = 'NoteSeqVerif.Props.C06_bridge'
+BRIDGE_THEOREMS = ['NSV.C06.t2_melody_sps', 'NSV.C06.t2_melody_start', 'NSV.C06.t2_drums_sps', 'NSV.C06.t2_drums_start',
+                   'NSV.C06.t2_chords_sps', 'NSV.C06.t2_chords_start', 'NSV.C06.t2_pianoroll_sps', 'NSV.C06.t2_pianoroll_start',
+                   'NSV.C06.t2_performance_sps', 'NSV.C06.t2_metric_sps', 'NSV.C06.t2_noteperf_sps']
 THEOREMS = [(_P, t) for t in [
     # float half (Proofs/C06Float.lean) and its composition with the C01 quantizer model (Proofs/C06Glue.lean)
     'NSV.C06.step_quantize_exact', 'NSV.C06.render_quantize_exact', 'NSV.C06.render_quantize_exact_metric',
@@ -76,6 +81,27 @@ def generate(chk):
            + 'def MIN_MIDI_PITCH : Int := %d\ndef MAX_MIDI_PITCH : Int := %d\n' % (ml.MIN_MIDI_PITCH, ml.MAX_MIDI_PITCH)
            + 'end NSV.C06.Gen\n')
     chk.regenerate('NoteSeqVerif/Generated/C06.lean', txt)
+    # translator tie T2: the float preamble of every to_sequence (seconds per step, start time) by symbolic execution
+    from harness.t2 import generate_t2
+    from note_seq import performance_lib as pfl
+    rel = {'self.steps_per_quarter': ('spq', 'int'), 'self.start_step': ('start_step', 'int')}
+    generate_t2(chk, 'C06', [
+        dict(fn=ml.Melody.to_sequence, module=ml, name='melody_to_sequence', params={'sequence_start_time': 'float', 'qpm': 'float'},
+             paths=rel, export=['seconds_per_step', 'sequence_start_time']),
+        dict(fn=dl.DrumTrack.to_sequence, module=dl, name='drums_to_sequence', params={'sequence_start_time': 'float', 'qpm': 'float'},
+             paths=rel, export=['seconds_per_step', 'sequence_start_time']),
+        dict(fn=cl.ChordProgression.to_sequence, module=cl, name='chords_to_sequence', params={'sequence_start_time': 'float', 'qpm': 'float'},
+             paths=rel, export=['seconds_per_step', 'sequence_start_time']),
+        dict(fn=prl.PianorollSequence.to_sequence, module=prl, name='pianoroll_to_sequence', params={'qpm': 'float'},
+             paths={'self._steps_per_quarter': ('spq', 'int'), 'self.start_step': ('start_step', 'int')},
+             export=['seconds_per_step', 'sequence_start_time']),
+        dict(fn=pfl.Performance.to_sequence, module=pfl, name='performance_to_sequence',
+             paths={'self.steps_per_second': ('sps', 'int')}, export=['seconds_per_step']),
+        dict(fn=pfl.MetricPerformance.to_sequence, module=pfl, name='metric_to_sequence', params={'qpm': 'float'},
+             paths={'self.steps_per_quarter': ('spq', 'int')}, export=['seconds_per_step']),
+        dict(fn=pfl.NotePerformance.to_sequence, module=pfl, name='noteperf_to_sequence',
+             paths={'self.steps_per_second': ('sps', 'int')}, export=['seconds_per_step']),
+    ], imports=('NoteSeqVerif.Common.Float',))
     if c06_perf is not None and hasattr(c06_perf, 'generate'):
         c06_perf.generate(chk)
 
@@ -794,6 +820,7 @@ def run(chk):
         'DrumTrack / PianorollSequence theorems hold for every storage order of the rendered notes',
         'protobuf field defaults and float64 storage of times / qpm',
     ])
+    chk.prove_bridge([BRIDGE], [(BRIDGE, t) for t in BRIDGE_THEOREMS])
     chk.rule = ('canonical event lists of Melody / DrumTrack / ChordProgression / LeadSheet / PianorollSequence (several bars; directly '
                 'generated with forced boundary cases - silence one step short of gap_bars, trailing pianoroll silence, note cut by the next, '
                 'pad_end after a NOTE_OFF - or returned by the real extractors on random quantized 4/4 sequences) x steps_per_quarter in '
